@@ -1,6 +1,7 @@
 import ParryModel.Field
 import ParryModel.C12.Lemmas8
 import ParryModel.C12.Lemmas9
+import ParryModel.C12.Lemmas10
 /-!
 # C12 theorems, eleventh pass (fu5): `fix_silhouette_topology` and `remove_unused_points`, for **every** `Num` instance
 (`Float` included): statements about indices, flags and lists, never about arithmetic.
@@ -19,6 +20,9 @@ import ParryModel.C12.Lemmas9
 * `removeUnused_spec` — `utils::remove_unused_points` (the `swap_remove` compaction with its `remap` table): every output vertex
   is an input point that some triangle uses (no unused vertex survives); every output index is in range; the three corners
   of every output triangle are THE SAME POINTS as the corners of the corresponding input triangle (geometry unchanged).
+* `hull3_run_point_indices_valid` — UNCONDITIONALLY (no `Twin`, no `CyclicLoop`, whatever the silhouette looks like, repaired or
+  not): after the initial mesh and after the whole main loop every point index stored in a facet (corners, visible points) is a
+  valid index of the cloud, so no facet ever reads a point out of range.
 * `hull3_vertices_are_input_points` — consequently, for the full-dimensional branch of `try_convex_hull`: every vertex of the returned mesh
   is one of the input points (of the ORIGINAL, un-normalised cloud), every triangle index is a valid vertex index and every vertex is used.
 -/
@@ -160,5 +164,56 @@ theorem removeUnused_spec (pts : Array (V3 K)) (idx : Array T3)
       · exact Or.inl (by rw [← h]; exact hk'.symm)
       · exact Or.inr (Or.inl (by rw [← h]; exact hk'.symm))
       · exact Or.inr (Or.inr (by rw [← h]; exact hk'.symm))
+
+/-- **index safety of the whole run, without any hypothesis**: the facets of the initial mesh and of the state the main loop ends
+with store only valid point indices (`AllOk n ts`: for every facet, `pts[j] < n` and every visible point `< n`), `n` = size of the
+input cloud = size of the normalised working cloud. -/
+theorem hull3_run_point_indices_valid (negMax : K) (orig : Array (V3 K)) (evec : List (V3 K)) (eval : List K) (ini : Init K)
+    (fuel : Nat) (ts : Array (Facet K)) (hi : initialMesh negMax orig evec eval = .ok ini)
+    (hl : mainLoop negMax ini.npts fuel 0 ini.ts ini.und = .ok ts) :
+    ini.npts.size = orig.size ∧ AllOk orig.size ini.ts ∧ AllOk orig.size ts := by
+  obtain ⟨hn, hsz, h1, h2⟩ := initialMesh_ok negMax orig evec eval ini hi
+  exact ⟨hsz, h1, mainLoop_ok orig.size hn negMax ini.npts fuel 0 ini.ts ini.und ts hl h1 h2⟩
+
+/-- **3-D hull vertices are input points** (full-dimensional branch of `try_convex_hull`, every run, every `Num` instance): every
+vertex of the returned mesh is a point of the ORIGINAL input cloud, distinct vertices come from distinct input indices, every
+triangle index is a valid vertex index, and every returned vertex is a corner of a returned triangle. -/
+theorem hull3_vertices_are_input_points (negMax : K) (orig : Array (V3 K)) (evec : List (V3 K)) (eval : List K) (ini : Init K)
+    (V : Array (V3 K)) (T : Array T3) (hi : initialMesh negMax orig evec eval = .ok ini)
+    (h : tryConvexHull negMax orig evec eval = .ok (V, T)) :
+    (∃ org : Nat → Nat, (∀ k, k < V.size → org k < orig.size ∧ V[k]? = orig[org k]?) ∧
+      ∀ k k', k < V.size → k' < V.size → org k = org k' → k = k') ∧
+    (∀ t : T3, t ∈ T.toList → t.a < V.size ∧ t.b < V.size ∧ t.c < V.size) ∧
+    (∀ k, k < V.size → ∃ t : T3, t ∈ T.toList ∧ T3.Has t k) := by
+  unfold tryConvexHull at h
+  rw [hi] at h
+  simp only at h
+  split at h
+  · rename_i ts hl
+    simp only [Res.ok.injEq] at h
+    obtain ⟨_, _, hts⟩ := hull3_run_point_indices_valid negMax orig evec eval ini _ ts hi hl
+    obtain ⟨s1, s2, s3, s4, org, s5, s6⟩ := removeUnused_spec orig (validTriangles ts)
+      (fun t ht => validTriangles_ok orig.size ts hts t ht)
+    rw [h] at s1 s2 s3 s4 s5 s6
+    simp only at s1 s2 s3 s4 s5 s6
+    refine ⟨?_, ?_, s4⟩
+    · -- a single provenance map that is injective: `org`; its values are in range because `V[k]` exists
+      refine ⟨org, fun k hk => ⟨?_, s5 k hk⟩, s6⟩
+      have := s5 k hk
+      rw [Array.getElem?_eq_getElem hk] at this
+      by_contra hc
+      rw [Array.getElem?_eq_none (by omega)] at this
+      exact absurd this (by simp)
+    · intro t ht
+      obtain ⟨q, hq, rfl⟩ := List.getElem_of_mem ht
+      have hq' : q < (validTriangles ts).size := by rw [← s2]; simpa using hq
+      obtain ⟨t', e1, b1, b2, b3, _⟩ := s3 q _ (Array.getElem?_eq_getElem hq')
+      have : T.toList[q] = t' := by
+        have hq2 : q < T.size := by simpa using hq
+        rw [Array.getElem?_eq_getElem hq2] at e1
+        simp only [Option.some.injEq] at e1
+        rw [← e1]; simp
+      rw [this]; exact ⟨b1, b2, b3⟩
+  all_goals exact absurd h (by simp)
 
 end C12
